@@ -5,6 +5,7 @@ import (
 	"go/token"
 	"go/types"
 	"sort"
+	"strconv"
 	"strings"
 
 	"golang.org/x/tools/go/ssa"
@@ -176,6 +177,7 @@ var ruleParseResult = &Rule{
 			sentinel string
 			kind     string // value | must | errorOnly
 		}
+		delegTo := map[string]*ssa.Function{}
 		for _, ws := range []wrapSpec{
 			{"Parse", "path.ErrPath", "value"},
 			{"MustParse", "", "must"},
@@ -261,6 +263,7 @@ var ruleParseResult = &Rule{
 					key := "path." + ws.fn + " hands the job to " + h.Name()
 					if inputOK && resultsOK {
 						out.ok(key, p.pos(fn.Pos()), fnName(fn), "its input (and sentinel) go in, the helper's results come back; the helper is held to the entry's obligations")
+						delegTo[ws.fn] = h
 						fn = h
 						calls = callsTo(fn, pParse)
 					} else {
@@ -275,10 +278,13 @@ var ruleParseResult = &Rule{
 			if len(calls) == 0 {
 				for _, c := range p.allCalls(fn) {
 					sc := c.Call.StaticCallee()
-					if sc == nil || sc == fn || fnPkgPath(sc) != pkgPath || len(c.Call.Args) != 1 {
+					if sc == nil || sc == fn || fnPkgPath(sc) != pkgPath || len(c.Call.Args) < 1 || len(c.Call.Args) > 2 {
 						continue
 					}
 					if sent, ok := p.parseWrapper(sc, pParse); ok {
+						if sent = wrapperSentinelAt(c, sent); sent == "" {
+							continue
+						}
 						calls = append(calls, c)
 						wrapped[c] = sent
 					}
@@ -296,7 +302,7 @@ var ruleParseResult = &Rule{
 					continue
 				}
 				// whole input: argument is the parameter (or its string conversion)
-				if !derivesFromParam(c.Call.Args[0]) {
+				if !derivesFromParam(textArgOf(c)) {
 					out.viol("path."+ws.fn+" parses its whole input", p.pos(c.Pos()), fnName(fn), "argument of parser.Parse is not the function's input")
 				} else {
 					out.ok("path."+ws.fn+" parses its whole input", p.pos(c.Pos()), fnName(fn), "argument is the input parameter (converted to string)")
@@ -434,6 +440,17 @@ var ruleParseResult = &Rule{
 		// UnmarshalText delegates
 		if ut, ub := p.ssaFunc(pkgPath, "*Path.UnmarshalText"), p.ssaFunc(pkgPath, "*Path.UnmarshalBinary"); ut != nil && ub != nil {
 			good := len(callsTo(ut, ub)) == 1
+			// … or to the very helper UnmarshalBinary hands its whole job to,
+			// with its own receiver and text in the same places
+			if h := delegTo["*Path.UnmarshalBinary"]; !good && h != nil && len(callsTo(ut, h)) == 1 {
+				c := callsTo(ut, h)[0]
+				good = len(c.Call.Args) == len(ut.Params)
+				for i, a := range c.Call.Args {
+					if good && a != ssa.Value(ut.Params[i]) {
+						good = false
+					}
+				}
+			}
 			for _, r := range returnsOf(ut) {
 				if sh := p.shapeOf(r.Results[0]); sh.Kind != "call" {
 					good = false
@@ -460,6 +477,9 @@ func (p *Prog) parseWrapper(g, pParse *ssa.Function) (string, bool) {
 	if len(calls) != 1 || !derivesFromParam(calls[0].Call.Args[0]) {
 		return "", false
 	}
+	if q, ok := stripConvParam(calls[0].Call.Args[0]); ok && isErrorType(q.Type()) {
+		return "", false
+	}
 	errV, treeV := extractOf(calls[0], 1), extractOf(calls[0], 0)
 	if errV == nil || treeV == nil {
 		return "", false
@@ -471,13 +491,25 @@ func (p *Prog) parseWrapper(g, pParse *ssa.Function) (string, bool) {
 		e := p.shapeOf(er.Results[1])
 		switch {
 		case notNil:
-			if p.shapeOf(er.Results[0]).Kind != "nil" || e.Kind != "errorf" || len(e.Sentinels) == 0 || !p.errorfMentions(e, errV) {
+			if p.shapeOf(er.Results[0]).Kind != "nil" || e.Kind != "errorf" || !p.errorfMentions(e, errV) {
 				return "", false
 			}
-			if sent != "" && sent != e.Sentinels[0] {
+			this := ""
+			if len(e.Sentinels) > 0 {
+				this = e.Sentinels[0]
+			} else {
+				// the sentinel is a parameter of the helper (`parseWrapped(
+				// ErrScan, text)`): "#i", resolved at each call
+				for i, q := range g.Params {
+					if isErrorType(q.Type()) && errorfWrapsFirst(er.Results[1], q) {
+						this = fmt.Sprintf("#%d", i)
+					}
+				}
+			}
+			if this == "" || (sent != "" && sent != this) {
 				return "", false
 			}
-			sent = e.Sentinels[0]
+			sent = this
 			nerr++
 		case isNil:
 			if stripConv(er.Results[0]) != treeV || e.Kind != "nil" {
@@ -498,7 +530,50 @@ func wrapsWith(p *Prog, fn *ssa.Function, v ssa.Value, pParse *ssa.Function, sen
 		return false
 	}
 	sent, ok := p.parseWrapper(c.Call.StaticCallee(), pParse)
-	return ok && sent == sentinel
+	return ok && wrapperSentinelAt(c, sent) == sentinel
+}
+
+// wrapperSentinelAt: the sentinel a parse wrapper wraps at call c — its own
+// ("pkg.Name"), or the package-level error handed in as argument i ("#i").
+func wrapperSentinelAt(c *ssa.Call, sent string) string {
+	if !strings.HasPrefix(sent, "#") {
+		return sent
+	}
+	i, err := strconv.Atoi(sent[1:])
+	if err != nil || i >= len(c.Call.Args) {
+		return ""
+	}
+	if g := loadedGlobal(c.Call.Args[i]); g != nil && g.Pkg != nil {
+		return g.Pkg.Pkg.Name() + "." + g.Name()
+	}
+	return ""
+}
+
+// textArgOf: the argument of a call of parser.Parse or of a parse wrapper
+// that carries the text (the one that is not an error).
+func textArgOf(c *ssa.Call) ssa.Value {
+	for _, a := range c.Call.Args {
+		if !isErrorType(a.Type()) {
+			return a
+		}
+	}
+	return c.Call.Args[0]
+}
+
+func stripConvParam(v ssa.Value) (*ssa.Parameter, bool) {
+	for i := 0; i < 6; i++ {
+		switch x := v.(type) {
+		case *ssa.Parameter:
+			return x, true
+		case *ssa.Convert:
+			v = x.X
+		case *ssa.ChangeType:
+			v = x.X
+		default:
+			return nil, false
+		}
+	}
+	return nil, false
 }
 
 // ctorHolds: v is the result of a constructor of the package that returns a
